@@ -260,6 +260,13 @@ struct Runner {
         out << "assert " << k << (sign ? ":+" : ":-") << " -> " << (res ? 1 : 0);
         if (!res) { conflict = true; out << " expl" << explanation(); }
         out << "\n";
+        if (env.theory == "LRA" || env.theory == "LIA") {
+            // which bound of the store this literal is (LASolver::assertLit: p.pos / p.neg of the atom)
+            LASolver * la = static_cast<LASolver *>(h.solverSchedule[0]);
+            LABoundRefPair p = la->getBoundRefPair(pool[k].atom);
+            LABound const & b = la->boundStore[sgn == l_False ? p.neg : p.pos];
+            out << "labound " << b.getId() << " " << b.getLVRef().x << " " << (b.getType() == bound_u ? "U" : "L") << "\n";
+        }
         dumpLA(false); dumpDL();
     }
     void doBacktrack(unsigned n) {
